@@ -41,6 +41,8 @@ func TestCheck(t *testing.T) {
 			"(IsLeader/GetLeaders/ServerInfo), must refuse allocate and acquire, must hold no store (leaderCheck runs every second); then another identity takes the lease: refusals must name it, still no store; " +
 			"(3d) two (thorough: four) real electors with 60 shards each (60 client-go elections side by side), all leases overwritten with another holder at once; per shard, after OnStoppedLeading and three further lease polls of that election: " +
 			"leader table, refusals and ServerInfo().Endpoints must name the lease holder, in whichever order client-go delivered OnNewLeader and OnStoppedLeading (both orders are counted); " +
+			"(3e) leadership changes (callback and table+leaderCheck) from one goroutine while six others call allocate / acquire / the cluster handler: calls that saw the same stable per-shard state word before and after are judged " +
+			"(inside a gap: refused, naming the leader), overlapping ones are counted; at quiescence a shard that is not led has no store; " +
 			"(4) k8s store over the generated fake clientset: Save of a foreign-shard condition refused (nothing written to the API or kept locally), Load keeps only own-shard conditions. " +
 			"Non-trivial = names/histories that exercise a refusal or a leadership change; distinct = hash of the name+N resp. of the history trace.")
 		r.Assume("between an election loss and the next leaderCheck the lost shard's store still exists; removing things from it (cleanup passes) is conforming (the statement demands the discard), writing into it is not")
@@ -84,6 +86,12 @@ func TestCheck(t *testing.T) {
 			}()
 		}
 		wg.Add(1)
+		ccRng := r.Rng.Fork("concurrent-server")
+		go func() { // part 3e: leadership changes concurrent with calls
+			defer wg.Done()
+			concurrentServerSide(r, ccRng)
+		}()
+		wg.Add(1)
 		spRng := r.Rng.Fork("sparse")
 		go func() { // part 2b: sparse leader tables (needs ~3 x 2 sync rounds of wall time)
 			defer wg.Done()
@@ -96,11 +104,16 @@ func TestCheck(t *testing.T) {
 		r.Require(r.Counter("shardfn_cases") >= 100000, "too few shard-function cases")
 		r.Require(r.Counter("gw_requests_judged") >= 100, "gateway side judged too few requests")
 		r.Require(r.Counter("gw_moves_converged") >= 1, "gateway side saw no leadership move converge")
+		r.Require(r.Counter("gw_odd_names_judged") >= 50 && r.Counter("gw_second_gateway_names_judged") >= 100 && r.Counter("gw_shard_count_one") >= 1, "gateway side: odd names / second gateway / single-shard fleet were not exercised")
 		r.Require(r.Counter("gw_shard_count_grows") >= 1 && r.Counter("gw_shard_count_shrinks") >= 1 && r.Counter("gw_shard_count_changes_converged") >= 2, "gateway side did not see the fleet's shard count grow and shrink")
-		r.Require(r.Counter("gw_sparse_phases") >= 3 && r.Counter("gw_sparse_published_judged") >= 100 && r.Counter("gw_sparse_unpublished_judged") >= 10, "gateway side: sparse leader tables were not exercised")
+		r.Require(r.Counter("gw_sparse_calls_for_unreachable_leader") >= 10, "gateway side: no call was made for a shard whose leader is unreachable")
+		r.Require(r.Counter("gw_sparse_phases") >= 4 && r.Counter("gw_sparse_published_judged") >= 100 && r.Counter("gw_sparse_unpublished_judged") >= 10, "gateway side: sparse leader tables were not exercised")
 		r.Require(r.Counter("real_elector_scenarios") >= 1 && r.Counter("real_elector_checks_lease-expired") >= 20 && r.Counter("real_elector_checks_lease-held-by-other") >= 10, "the real-elector scenario did not complete")
 		r.Require(r.Counter("real_takeover_scenarios") >= 1 && r.Counter("real_takeover_shards_judged") >= 60, "the real-elector takeover scenario did not complete")
 		r.Require(r.Violations() > 0 || r.Counter("real_takeover_newleader_before_stop") >= 1, "no takeover showed client-go reporting the new leader before the end of the term (the order that matters was not exercised)")
+		r.Require(r.Counter("conc_scenarios") >= 1 && r.Counter("conc_leadership_changes") >= 400 && r.Counter("conc_calls_judged_inside_a_gap") >= 200 && r.Counter("conc_calls_served_inside_a_term") >= 200 && r.Counter("conc_calls_overlapping_a_change") >= 20,
+			"the concurrent server-side scenario judged too few calls / saw too few overlaps")
+		r.Require(r.Counter("srv_regain_load_failed_store_dropped") >= 1 && r.Counter("srv_regain_after_load_failure") >= 1, "the regain-with-failing-Load path was not exercised")
 		r.Require(r.Counter("srv_flushfail_scenarios") >= 1 && r.Counter("srv_flushfail_conditions_compared_with_api") >= 1, "the flush-failure scenario (k8s store) did not complete")
 		r.Require(r.Counter("srv_refusals_judged") >= 1000, "server side judged too few not-leader calls")
 		r.Require(r.Counter("srv_served_allocate") >= 300 && r.Counter("srv_served_acquire_accepted") >= 300, "server side served too few calls while leading")
